@@ -243,6 +243,9 @@ def check(tier):
     for cid, x, y in conversions(tier):
         code = "namespace wc%d { using X = %s; using Y = %s; void f() { covfie::field<X> a; covfie::field<Y> b(a); (void)b; } }\n" % (len(ws), x.cxx, y.cxx)
         ws.append(Witness("convert :: " + cid, code, meta={"op": "convert", "cid": cid}))
+        if x.cxx != y.cxx:
+            code = "namespace wm%d { using X = %s; using Y = %s; void f() { covfie::field<X> a; covfie::field<Y> b(std::move(a)); (void)b; } }\n" % (len(ws), x.cxx, y.cxx)
+            ws.append(Witness("convert-move :: " + cid, code, meta={"op": "convert", "cid": "move " + cid}))
     cat, unfals = catalogue()
     for i, (cid, where, code, msg) in enumerate(cat):
         ws.append(Witness("reject :: " + cid, "namespace wr%d {\n%s\n}\n" % (i, code) if "#include" not in code else code,
